@@ -43,6 +43,9 @@ type vfStream[R any, S any] struct {
 	closeSend   bool
 	onCloseSend func()
 	onSend      func(*S)
+	// holdCancel: cancellation of the stream context is not noticed by Recv until released (gRPC delivers a
+	// cancellation to a blocked Recv asynchronously; the harness owns that delay)
+	holdCancel chan struct{}
 }
 
 func newVFStream[R any, S any](parent context.Context, name string) *vfStream[R, S] {
@@ -61,8 +64,32 @@ func (s *vfStream[R, S]) recv() (*R, error) {
 	case it := <-s.recvQ:
 		return it.val, it.err
 	case <-s.ctx.Done():
+		s.mu.Lock()
+		hold := s.holdCancel
+		s.mu.Unlock()
+		if hold != nil {
+			<-hold
+		}
 		return nil, status.Error(codes.Canceled, "context canceled")
 	}
+}
+
+// HoldCancel makes Recv ignore the cancellation of the stream context until ReleaseCancel.
+func (s *vfStream[R, S]) HoldCancel() {
+	s.mu.Lock()
+	if s.holdCancel == nil {
+		s.holdCancel = make(chan struct{})
+	}
+	s.mu.Unlock()
+}
+
+func (s *vfStream[R, S]) ReleaseCancel() {
+	s.mu.Lock()
+	if s.holdCancel != nil {
+		close(s.holdCancel)
+		s.holdCancel = nil
+	}
+	s.mu.Unlock()
 }
 
 func (s *vfStream[R, S]) send(m *S) error {
